@@ -7,7 +7,13 @@
 //! share of the data sets is fed to the library as `X + off` with large exactly representable
 //! offsets (2^20..2^30 times a small odd factor, |mean| / sd up to 1e9) while the event keeps
 //! the small integers `X` and records `off` separately; the specification evaluates every
-//! clause on the small integers.  No property logic: every verdict (including the
+//! clause on the small integers.  Column-scale family: correlation-mode PCA is invariant
+//! under rescaling any column by a positive factor (P_j is divided by that factor, the
+//! transform is unchanged) and covariance-mode PCA under a common factor (components
+//! unchanged, transform multiplied by it); another share of the data sets is fed with columns
+//! multiplied by exact powers of two (2^-40, 2^-30, 2^30; per column in correlation mode, one
+//! common exponent in covariance mode), the outputs are descaled exactly and the event again
+//! carries the small integers plus the exponents `cexp`.  No property logic: every verdict (including the
 //! choice of the scale that is safe for 32-bit arithmetic) is taken by spec/decomp/Pca.tla.
 use rand::rngs::StdRng;
 use rand::Rng;
@@ -44,24 +50,33 @@ struct PcaOut {
 
 /// fit with k components; transform the training matrix, the stacked query rows, and the two
 /// halves of the query rows separately
-fn shifted(x: &[Vec<i64>], off: &[i64]) -> Vec<Vec<i64>> {
-    x.iter().map(|r| r.iter().zip(off.iter()).map(|(v, o)| v + o).collect()).collect()
-}
-
-fn pca_fit(x: &[Vec<i64>], z: &[Vec<i64>], off: &[i64], k: usize, corr: bool) -> Result<Result<PcaOut, ()>, String> {
-    let x = shifted(x, off);
-    let z = shifted(z, off);
-    let xm = dm(&x);
-    let zm = dm(&z);
-    let z1 = dm(&z[..z.len() / 2 + 1]);
-    let z2 = dm(&z[z.len() / 2 + 1..]);
+/// `off`: per-column offsets added before fitting; `cexp`: per-column power-of-two factors;
+/// `yexp`: the power of two by which the transform of the scaled problem differs from the
+/// transform of the integer problem (0 in correlation mode, the common exponent in covariance
+/// mode).  Outputs are mapped back exactly: P_j = P'_j 2^(cexp_j - yexp), Y = Y' 2^-yexp.
+fn pca_fit(x: &[Vec<i64>], z: &[Vec<i64>], off: &[i64], cexp: &[i32], yexp: i32, k: usize, corr: bool) -> Result<Result<PcaOut, ()>, String> {
+    let scale = |m: &[Vec<i64>]| -> DenseMatrix<f64> {
+        let rows: Vec<Vec<f64>> = m
+            .iter()
+            .map(|r| r.iter().enumerate().map(|(j, &v)| (v + off[j]) as f64 * (2.0f64).powi(cexp[j])).collect())
+            .collect();
+        DenseMatrix::from_2d_vec(&rows)
+    };
+    let xm = scale(x);
+    let zm = scale(z);
+    let z1 = scale(&z[..z.len() / 2 + 1]);
+    let z2 = scale(&z[z.len() / 2 + 1..]);
+    let pback: Vec<f64> = cexp.iter().map(|&e| (2.0f64).powi(e - yexp)).collect();
+    let yback = (2.0f64).powi(-yexp);
     guard(move || {
         let r = PCA::fit(&xm, PCAParameters::default().with_n_components(k).with_use_correlation_matrix(corr)).and_then(|m| {
             let y = m.transform(&xm)?;
             let yz = m.transform(&zm)?;
             let mut yzs = rows_of(&m.transform(&z1)?);
             yzs.extend(rows_of(&m.transform(&z2)?));
-            Ok(PcaOut { p: rows_of(m.components()), y: rows_of(&y), yz: rows_of(&yz), yzs })
+            let sc = |rows: Vec<Vec<f64>>| -> Vec<Vec<f64>> { rows.iter().map(|r| r.iter().map(|v| v * yback).collect()).collect() };
+            let p: Vec<Vec<f64>> = rows_of(m.components()).iter().enumerate().map(|(j, r)| r.iter().map(|v| v * pback[j]).collect()).collect();
+            Ok(PcaOut { p, y: sc(rows_of(&y)), yz: sc(rows_of(&yz)), yzs: sc(yzs) })
         });
         r.map_err(|_| ())
     })
@@ -223,20 +238,34 @@ fn gen(path: &str) {
         } else {
             vec![0; p]
         };
-        let famtag = format!("{}{}{}", fam, if wide { "/wide" } else { "" }, if d % 2 == 1 { "/offset" } else { "" });
+        let scaled = d % 4 == 2;
+        let famtag = format!("{}{}{}", fam, if wide { "/wide" } else { "" }, if d % 2 == 1 { "/offset" } else if scaled { "/colscale" } else { "" });
         // ---- PCA, both modes, every k
         for &corr in &[false, true] {
             if corr && has_constant_column(&x) {
                 continue; // standardisation undefined: outside the statement
             }
-            let full = pca_fit(&x, &z, &off, p, corr);
+            // column-scale family: per-column exponents (correlation) / one common exponent (covariance)
+            let (cexp, yexp): (Vec<i32>, i32) = if !scaled {
+                (vec![0; p], 0)
+            } else if corr {
+                let mut c: Vec<i32> = (0..p).map(|_| [-40, -30, 0, 30][rng.gen_range(0..4)]).collect();
+                if c.iter().all(|&e| e == 0) {
+                    c[rng.gen_range(0..p)] = -40;
+                }
+                (c, 0)
+            } else {
+                let e = [-40, -30, 30][rng.gen_range(0..3)];
+                (vec![e; p], e)
+            };
+            let full = pca_fit(&x, &z, &off, &cexp, yexp, p, corr);
             let yf: Vec<Vec<f64>> = match &full {
                 Ok(Ok(o)) => o.y.clone(),
                 _ => vec![],
             };
             for k in 1..=p {
                 run += 1;
-                let r = pca_fit(&x, &z, &off, k, corr);
+                let r = pca_fit(&x, &z, &off, &cexp, yexp, k, corr);
                 let st = status_of(&r);
                 bump(format!("pca-{}", st));
                 let (fin, q) = match &r {
@@ -247,7 +276,7 @@ fn gen(path: &str) {
                     _ => (false, vec![]),
                 };
                 out.emit(json!({"run": run, "ev": "Pca", "fam": famtag, "mode": if corr {"corr"} else {"cov"}, "m": m, "p": p, "k": k,
-                    "X": x, "Z": z, "off": off, "status": st, "fin": fin, "q": q}));
+                    "X": x, "Z": z, "off": off, "cexp": cexp, "status": st, "fin": fin, "q": q}));
             }
         }
         // ---- truncated SVD, every k <= p (k = p must be rejected).  No centring here, so the
@@ -274,7 +303,7 @@ fn gen(path: &str) {
                 _ => (false, vec![]),
             };
             out.emit(json!({"run": run, "ev": "Tsvd", "fam": famtag, "m": m, "p": p, "k": k,
-                "X": x, "Z": z, "off": vec![0i64; p], "status": st, "fin": fin, "q": q}));
+                "X": x, "Z": z, "off": vec![0i64; p], "cexp": vec![0i32; p], "status": st, "fin": fin, "q": q}));
         }
     }
     let n = out.finish();
@@ -294,9 +323,11 @@ fn replay_file(input: &str, path: &str) {
         let mut o = e.clone();
         if e["ev"] == "Pca" {
             let corr = e["mode"] == "corr";
-            let full = pca_fit(&x, &z, &off, p, corr);
+            let cexp: Vec<i32> = serde_json::from_value(e["cexp"].clone()).unwrap_or(vec![0; p]);
+            let yexp = if corr { 0 } else { cexp[0] };
+            let full = pca_fit(&x, &z, &off, &cexp, yexp, p, corr);
             let yf: Vec<Vec<f64>> = match &full { Ok(Ok(o)) => o.y.clone(), _ => vec![] };
-            let r = pca_fit(&x, &z, &off, k, corr);
+            let r = pca_fit(&x, &z, &off, &cexp, yexp, k, corr);
             o["status"] = json!(status_of(&r));
             match &r {
                 Ok(Ok(f)) => {
